@@ -397,22 +397,15 @@ def oracle_settings(case, builtin, q, filter_truth):
             elif s == "test-group":
                 found = ("@global", ("fixed",))
             elif s in JUNIT_SUB:
-                # junit.path / junit.store-*-output are separate keys of the [profile.<n>.junit] section;
-                # JUnit is on for a profile iff that profile has a path (a custom profile does not take
-                # the default profile's path); with JUnit off nothing is stored
-                def leaf(n, sk):
-                    for f in files + [builtin]:
-                        j = f["profiles"].get(n, {}).get("settings", {}).get("junit")
-                        if isinstance(j, dict) and sk in j:
-                            return j[sk]
-                    return None
-                if leaf(sel, "path") is None:
+                # junit.path / junit.store-*-output are separate keys of the [profile.<n>.junit] section,
+                # each read by the documented rule: the selected profile's value, else the default
+                # profile's. A report is written iff a path results; without a report nothing is stored.
+                if junit_leaf(case, builtin, names, "path") is None:
                     found = (False, ("junit-off",))
                 else:
-                    for n in names:
-                        v = leaf(n, JUNIT_SUB[s])
-                        if found is None and v is not None:
-                            found = (v, ("profile", n))
+                    v = junit_leaf(case, builtin, names, JUNIT_SUB[s])
+                    if v is not None:
+                        found = (v[0], ("profile", v[1]))
             else:
                 # 2. selected profile (repo beats tools beats built-in), then default profile
                 for n in names:
@@ -422,6 +415,24 @@ def oracle_settings(case, builtin, q, filter_truth):
                             found = (canon(s, st[s]), ("profile", n))
         out[s] = found if found is not None else (INVALID, ("missing",))
     return out
+
+
+def junit_leaf(case, builtin, names, sk):
+    """(value, profile it came from) of junit.<sk> by the documented rule, or None"""
+    for n in names:
+        for f in files_by_priority(case) + [builtin]:
+            j = f["profiles"].get(n, {}).get("settings", {}).get("junit")
+            if isinstance(j, dict) and sk in j:
+                return (j[sk], n)
+    return None
+
+
+def f22_class(case, builtin):
+    """a custom profile is selected, no file gives it a junit.path, some file gives the default
+    profile one (JunitConfig::new takes the path from the custom profile alone)"""
+    sel = case["profile"]
+    return sel != "default" and junit_leaf(case, builtin, [sel], "path") is None \
+        and junit_leaf(case, builtin, ["default"], "path") is not None
 
 
 def deep_merged(case, builtin, n, k):
@@ -622,7 +633,21 @@ def witness_cases():
               tools=[dict(tool="tool1", groups=[], profiles={"ci": prof(
                   {"retries": {"backoff": "exponential", "count": 3, "delay": "2s", "max-delay": "10s"}})})],
               profile="default", host=LINUX, target=None)
-    return [w1, w2, w3]
+    # F22: the default profile has a JUnit path and stores the output of passing tests; profile ci has
+    # no junit section; --profile ci (documented: ci's value, else the default profile's)
+    w4 = dict(repo=dict(tool=None, groups=[], profiles={
+                  "default": prof({"junit": {"path": "junit.xml", "store-success-output": True}}),
+                  "ci": prof({"retries": 1})}),
+              tools=[], profile="ci", host=LINUX, target=None)
+    # the same outside the class: ci has its own path and inherits the default profile's flag
+    w5 = dict(repo=dict(tool=None, groups=[], profiles={
+                  "default": prof({"junit": {"path": "junit.xml", "store-success-output": True,
+                                             "store-failure-output": False}}),
+                  "ci": prof({"junit": {"path": "ci.xml"}})}),
+              tools=[dict(tool="tool1", groups=[], profiles={
+                  "ci": prof({"junit": {"store-failure-output": True}})})],
+              profile="ci", host=LINUX, target=None)
+    return [w1, w2, w3, w4, w5]
 
 
 # ------------------------------------------------------------------------------------ running cases
@@ -720,7 +745,7 @@ def evaluate(binary, cases, builtin, tag):
     return out
 
 
-def judge(case, ev, builtin, chk, known_what):
+def judge(case, ev, builtin, chk, known_what, known_f22=None):
     """decide one case (DESIGN section 3). Returns list of (kind, name, detail, no_input)."""
     impl, names = ev["impl"], ev["names"]
     sel = case["profile"]
@@ -796,9 +821,16 @@ def judge(case, ev, builtin, chk, known_what):
                 if src[0] == "profile" and s in TABLE_VALUED and f8_class(case, builtin, src[1], s) \
                         and got[s] == canon(s, deep_merged(case, builtin, src[1], s)):
                     excused = known_what is not None
+                # F22: JUnit storage flag, resolved at profile level, in the class, and the implementation
+                # shows exactly "JUnit is off" while the documented rule stores the output
+                f22 = (s in JUNIT_SUB and src[0] == "profile" and f22_class(case, builtin)
+                       and got[s] is False and wv is True and known_f22 is not None)
                 if excused:
                     chk.known_finding(known_what)
                     chk.count("known_f8_value")
+                elif f22:
+                    chk.known_finding(known_f22)
+                    chk.count("known_f22_value")
                 elif orc_fail is None:
                     orc_fail = dict(query=q, setting=s, impl=got[s], documented=wv, source=list(src),
                                     clause=f"{s} of test {q['test']!r} in {q['binary_id']} ({q['platform']}) "
@@ -818,9 +850,9 @@ def judge(case, ev, builtin, chk, known_what):
     return verdicts
 
 
-def known_entry():
+def known_entry(fid="F8"):
     for f in vlib.known_findings().get("findings", []):
-        if f.get("property") == PROP and f.get("id") == "F8":
+        if f.get("property") == PROP and f.get("id") == fid:
             return f["what"]
     return None
 
@@ -852,6 +884,7 @@ def run(tier, seed):
     thorough = tier == "thorough"
     builtin = builtin_file()
     known_what = known_entry()
+    known_f22 = known_entry("F22")
 
     cases = witness_cases() + corpus()
     n_fixed = len(cases)
@@ -883,7 +916,9 @@ def run(tier, seed):
                 distinct.add(shape(case))
         else:
             chk.count("impl_" + ev["impl"].get("error", "?"))
-        for kind, name, detail, no_input in judge(case, ev, builtin, chk, known_what):
+        if f22_class(case, builtin):
+            chk.count("in_f22_class")
+        for kind, name, detail, no_input in judge(case, ev, builtin, chk, known_what, known_f22):
             if name not in reported:      # one replay per failing clause is enough
                 reported.add(name)
                 chk.violation(kind, name, detail, no_input=no_input)
@@ -903,9 +938,19 @@ def run(tier, seed):
         "text denotes; values are atoms or flat tables of atoms; canonicalisation of a value "
         "(defaults of omitted sub-keys, validity) is done by props/C06.py for model and oracle alike",
         "the built-in layer is read from nextest-runner/default-config.toml on every run",
-        "CLI / environment overrides (--retries, --success-output, --failure-output) are covered by the "
-        "model theorem C06_cli_retries only; they are applied outside settings_for and are not observed here",
+        "the command-line / environment clause is observed for retries (the one per-test setting that has "
+        "both): --retries N, NEXTEST_RETRIES=N and both, on the real cargo-nextest binary over the puppet "
+        "workspace, against policies from overrides / the selected profile / the default profile "
+        "(lib/e2e_retries.py); --success-output / --failure-output are reporter display options applied "
+        "outside settings_for and are not verified",
     ]
+    # end-to-end: the command-line / environment value wins (retries), on the real binary
+    try:
+        import e2e_retries
+        _, forced_runs, forced_tests = e2e_retries.stage(chk, PROP, tier, seed)
+    except RuntimeError as ex:
+        forced_tests = 0
+        chk.violation("broken-obligation", "e2e-build", dict(error=str(ex)[-3000:]), no_input=True)
     return chk.finish(
         gate, checker_cmd,
         ["Coq 8.16.1 kernel + vm_compute",
@@ -918,13 +963,19 @@ def run(tier, seed):
                   "evaluated for all fixture queries x 11 settings; non-trivial = at least two files and at "
                   "least two overrides, loaded successfully; distinct by (profile, platforms, per file and "
                   "profile: setting keys, per override: platform specs, filter, settings set)",
-             traces_validated_against_impl=sum(1 for e in results if "settings" in e["impl"]) * len(QUERIES)))
+             traces_validated_against_impl=sum(1 for e in results if "settings" in e["impl"]) * len(QUERIES)
+             + forced_tests))
 
 
 def replay(path, seed):
     d = json.load(open(path))
     case = d.get("input")
     print(json.dumps({k: v for k, v in d.items() if k != "toml"}, indent=1, default=str)[:4000])
+    if isinstance(case, dict) and "forced_scenario" in case:
+        import e2e_retries
+        why = e2e_retries.replay(d)
+        print("oracle now:", why or "accepts")
+        return 1 if why else 0
     if not isinstance(case, dict) or "profile" not in case:
         return 0
     for f in files_by_priority(case):
@@ -939,7 +990,7 @@ def replay(path, seed):
     builtin = builtin_file()
     chk = vlib.Check(PROP, "replay", seed)
     ev = evaluate(binary, [case], builtin, "c06_replay")[0]
-    verdicts = judge(case, ev, builtin, chk, known_entry())
+    verdicts = judge(case, ev, builtin, chk, known_entry(), known_entry("F22"))
     for kind, name, detail, _ in verdicts:
         print("still failing:", name, detail.get("clause") or detail.get("note") or "")
     if not verdicts:
